@@ -184,6 +184,30 @@ End NodeCC.
 
 (* ------------------------------------------------------------------ the system and its checker *)
 
+(* a configuration-change entry *)
+Definition isconf (p : nat) : bool :=
+  match cc_of_payload p with Some _ => true | None => false end.
+
+Fixpoint nconf (l : elog) : nat :=
+  match l with
+  | [] => 0
+  | e :: t => (if isconf (snd e) then 1 else 0) + nconf t
+  end.
+
+(* "l holds at most one configuration change above index c" *)
+Definition cc_okb (l : elog) (c : nat) : bool := nconf (skipn c l) <=? 1.
+
+(* what a node may send on its own initiative: as in RaftModel.emit_okb, and the log prefix a MsgApp
+   stands for (up to its last entry) holds at most one configuration change above the commit index
+   the message carries (raft.go: a leader proposes a change only when the previous one is applied,
+   and sendAppend stamps its current commit index) *)
+Definition emit_cc_okb (id : nat) (n : nstate) (m : msg) : bool :=
+  emit_okb id n m &&
+  match m_type m with
+  | MsgApp => cc_okb (firstn (m_index m + length (m_ents m)) (n_log n)) (m_commit m)
+  | _ => true
+  end.
+
 Record cxstate : Type := mkCX {
   cx_nodes : nat -> nstate * nat;
   cx_msgs : list msg
@@ -198,7 +222,7 @@ Section SystemCC.
   Inductive cxstep (x : cxstate) : cxstate -> Prop :=
   | CXStep : forall id ev extra,
       (forall m, ev = EvRecv m -> In m (cx_msgs x) /\ m_to m = id) ->
-      forallb (emit_okb id (fst (fst (exec_cc boot page1 id ev (cx_nodes x id))))) extra = true ->
+      forallb (emit_cc_okb id (fst (fst (exec_cc boot page1 id ev (cx_nodes x id))))) extra = true ->
       cxstep x (mkCX (upd (cx_nodes x) id (fst (exec_cc boot page1 id ev (cx_nodes x id))))
                      (cx_msgs x ++ snd (exec_cc boot page1 id ev (cx_nodes x id)) ++ extra)).
 
